@@ -278,7 +278,8 @@ def run_harness(h, outdir, tier):
             res['reason'] = 'no canary obligation generated (vacuity guard)'
             return res
         dead = [o for o in canaries if o['status'] != 'FAILURE']
-        if dead:
+        # a failed obligation that cuts every path (assert-then-assume acceptors, throws) is the verdict, not vacuity
+        if dead and not has_real_failure:
             res['status'] = 'broken'
             res['reason'] = 'vacuous harness: canary %r is unreachable' % dead[0]['description']
             return res
